@@ -230,7 +230,8 @@ func (eval Evaluator) gadgetProductSinglePAndBitDecompLazy(levelQ int, cx ring.P
 		// the power of two decomposition is applied on top
 		// of the RNS decomposition
 		if mask == 0 {
-			eval.Decomposer.DecomposeAndSplit(levelQ, levelP, levelP+1, i, cxInvNTT, c2QP.Q, c2QP.P)
+			// Without auxiliary modulus (levelP = -1) a digit is a single modulus of Q.
+			eval.Decomposer.DecomposeAndSplit(levelQ, levelP, utils.Max(levelP+1, 1), i, cxInvNTT, c2QP.Q, c2QP.P)
 		}
 
 		for j := 0; j < BaseTwoDecompositionVectorSize[i]; j++ {
